@@ -48,6 +48,7 @@ def setup(ctx):
     ctx.require("monitor", "success_bodies_checked", 500)
     ctx.require("monitor", "attacks_at_outside", 500)
     ctx.require("monitor", "availability_checked", 300)
+    ctx.require("monitor", "empty_files_requested", 20)
     ctx.require("monitor", "live_responses", 10)
 
 
@@ -266,7 +267,9 @@ def judge(ctx, meta, listing, path, cls, tclass, target, resp, via="L0", audit_e
             ctx.undecided("literal-spelling-of-non-pchar-name")
         if required:
             ctx.count("monitor", "availability_checked")
-            if status != 20 or target["token"] not in toks:
+            if target["token"] is None:
+                ctx.count("monitor", "empty_files_requested")
+            if status != 20 or (target["token"] not in toks if target["token"] is not None else text != ""):
                 verdict = "unreachable"
                 ctx.violation(f"unreachable-{'literal' if cls == 'literal' else 'encoded'}:name={name_class}",
                               f"regular in-root file requested by its own {cls} path was not served (status {status})", wit)
